@@ -210,6 +210,12 @@ func VerifyDualProof(proof *DualProof, sourceTxID, targetTxID uint64, sourceAlh,
 
 	} else {
 
+		// the last leaf of the target Merkle Tree is the source transaction itself,
+		// thus it must be the one already trusted
+		if sourceTxID == proof.TargetTxHeader.BlTxID && proof.TargetBlTxAlh != sourceAlh {
+			return false
+		}
+
 		verifies := VerifyLinearProof(proof.LinearProof, sourceTxID, targetTxID, sourceAlh, targetAlh)
 		if !verifies {
 			return false
@@ -330,6 +336,9 @@ func VerifyDualProofV2(proof *DualProofV2, sourceTxID, targetTxID uint64, source
 	}
 
 	if sourceTxID == targetTxID {
+		if sourceAlh != targetAlh {
+			return ErrIllegalArguments
+		}
 		return nil
 	}
 
